@@ -104,6 +104,63 @@ func graveyardCleanupGuards(mod *ast.FuncDecl) string {
 	return found
 }
 
+// trackerLoopIsPlainMin: the loop over the delete trackers in graveyardWorker does nothing but
+// `rev := dt.getRevision(); if rev < lowWatermark { lowWatermark = rev }` — no tracker is skipped
+func trackerLoopIsPlainMin(gc *ast.FuncDecl) bool {
+	ok := false
+	ast.Inspect(gc.Body, func(n ast.Node) bool {
+		fs, isFor := n.(*ast.ForStmt)
+		if !isFor || fs.Init == nil || !strings.Contains(exprString2(fs.Init), "dtIter.Next()") {
+			return true
+		}
+		if len(fs.Body.List) != 2 {
+			return false
+		}
+		as, ok1 := fs.Body.List[0].(*ast.AssignStmt)
+		is, ok2 := fs.Body.List[1].(*ast.IfStmt)
+		if ok1 && ok2 && len(as.Rhs) == 1 && exprString(as.Rhs[0]) == "dt.getRevision()" && exprString(is.Cond) == "rev<lowWatermark" && is.Else == nil && len(is.Body.List) == 1 {
+			if a2, ok3 := is.Body.List[0].(*ast.AssignStmt); ok3 && exprString(a2.Lhs[0]) == "lowWatermark" && exprString(a2.Rhs[0]) == "rev" {
+				ok = true
+			}
+		}
+		return false
+	})
+	return ok
+}
+
+func exprString2(st ast.Stmt) string {
+	if as, ok := st.(*ast.AssignStmt); ok {
+		var r []string
+		for _, e := range as.Rhs {
+			r = append(r, exprString(e))
+		}
+		return strings.Join(r, ",")
+	}
+	return ""
+}
+
+// workListOnlyFromTheScan: `toBeDeleted[...]` is assigned only by appending a key found by the scan
+// of the graveyard revision index (a table with nothing to collect gets no entry and is not locked)
+func workListOnlyFromTheScan(gc *ast.FuncDecl) bool {
+	n, good := 0, 0
+	ast.Inspect(gc.Body, func(x ast.Node) bool {
+		as, ok := x.(*ast.AssignStmt)
+		if !ok {
+			return true
+		}
+		for i, l := range as.Lhs {
+			if strings.HasPrefix(exprString(l), "toBeDeleted[") {
+				n++
+				if i < len(as.Rhs) && exprString(as.Rhs[i]) == "append(toBeDeleted[table.meta],key)" && exprString(l) == "toBeDeleted[table.meta]" {
+					good++
+				}
+			}
+		}
+		return true
+	})
+	return n == 1 && good == 1
+}
+
 // extractTable: the write path of a table (write_txn.go modify / delete), the collector's low
 // watermark (graveyard.go) and the change iterator's cursors (iterator.go, deletetracker.go).
 func extractTable(repo string, facts Facts) (string, string) {
@@ -145,8 +202,8 @@ func extractTable(repo string, facts Facts) (string, string) {
 			as, ok := x.(*ast.AssignStmt)
 			return ok && len(as.Lhs) == 1 && exprString(as.Lhs[0]) == "lowWatermark" && exprString(as.Rhs[0]) == "table.revision"
 		}) >= 0,
-		"watermarkIsMinOverTrackers": has(gcc, "rev<lowWatermark") && callPos(gc, "dt.getRevision()") >= 0 && returnsOnly(getRev, "dt.revision.Load()"),
-		"collectsUpToWatermark":      has(gcc, "obj.revision>lowWatermark"),
+		"watermarkIsMinOverTrackers": has(gcc, "rev<lowWatermark") && callPos(gc, "dt.getRevision()") >= 0 && returnsOnly(getRev, "dt.revision.Load()") && trackerLoopIsPlainMin(gc),
+		"collectsUpToWatermark":      has(gcc, "obj.revision>lowWatermark") && workListOnlyFromTheScan(gc),
 		"collectorRechecksExistence": has(gcc, "existed") && has(gcc, "len(toBeDeleted)==0"),
 		// change iterator
 		"staleSnapshotDeliversNothing": has(rc, "tableEntry.revision<it.baseRevision"),
